@@ -2,6 +2,8 @@ def classify(sig, what):
     kind = sig.split(' | ')[0]
     if kind == 'definition-lost': kind = 'definition-dropped'
     if kind == 'operation-lost': kind = 'operation-dropped'
+    if 'tags operations / operationsops' in sig or 'tags api / apiops' in sig or 'tags models / modelsops' in sig:
+        return 'O3: a tag whose name collides with a generated package (operations) is renamed by appending "ops" without checking that another tag already has that name (operationsops): both tags share one package and operations with the same id under the two tags overwrite each other - generation succeeds, one (method, path) has no handler.'
     if kind == 'definition-dropped':
         return 'D1: two definitions whose names mangle to the same Go identifier / file name (a-b vs a_b, id vs ID, x vs X ...) are written to the same models file: generation succeeds and one of them silently disappears. No collision detection exists in the model planner (a repair means a new error path in appGenerator/gatherModels, not a one-line patch).'
     if kind in ('operation-dropped', 'operation-unreachable', 'operations-merged', 'wrong-handler'):
